@@ -134,8 +134,12 @@ impl TraitHandler for DebugEnumHandler {
                                 has_fields = true;
                             }
                         } else {
-                            block_token_stream
-                                .extend(quote!(let mut builder = f.debug_tuple(#name_string);));
+                            // a nameless tuple is shown as `(v, ..)`, like a nameless tuple struct
+                            let tuple_name_string = name_string.as_deref().unwrap_or("");
+
+                            block_token_stream.extend(
+                                quote!(let mut builder = f.debug_tuple(#tuple_name_string);),
+                            );
 
                             for field in fields.named.iter() {
                                 let field_attribute = FieldAttributeBuilder {
@@ -254,8 +258,12 @@ impl TraitHandler for DebugEnumHandler {
                                 has_fields = true;
                             }
                         } else {
-                            block_token_stream
-                                .extend(quote!(let mut builder = f.debug_tuple(#name_string);));
+                            // a nameless tuple is shown as `(v, ..)`, like a nameless tuple struct
+                            let tuple_name_string = name_string.as_deref().unwrap_or("");
+
+                            block_token_stream.extend(
+                                quote!(let mut builder = f.debug_tuple(#tuple_name_string);),
+                            );
 
                             for (index, field) in fields.unnamed.iter().enumerate() {
                                 let field_attribute = FieldAttributeBuilder {
